@@ -258,6 +258,14 @@ def histories(ctx, exhaustive_len, n_random, max_len=14):
             if L >= 3 and all(o[0] == "read" for o in h[:-1]):
                 continue
             hs.append((default_names(), list(h)))
+    # calls that fail half-way (malformed paths: what was added before the failure stays), after every look-up
+    # has been read and cached: nothing may be left stale by the part that did take effect
+    reads = [("read", k) for k in KEYS]
+    for items in (["n2"], ["n2", "n0"], ["n2", "x0"], ["n2", "l0"], ["n2", "l0", "x1"], ["n1", "l0", "n2", "l1"],
+                  ["n2", "l1", "n0", "n1"], ["n1", "l2", "n2", "x0", "n0"]):
+        for pre in ([], [("link", "n0", "l0", "n1")], [("path", ["n0", "l0", "n1"], 0, 0)]):
+            for od in ((None, None), (1, None), (None, 1)):
+                hs.append((default_names(), pre + reads + [("path", list(items), od[0], od[1])] + reads))
     for i in range(n_random):
         nm = default_names() if i % 3 else colliding_names(rng)
         hs.append((nm, [random_op(rng) for _ in range(rng.randint(2, max_len))]))
@@ -307,6 +315,13 @@ def run_histories(ctx, hs, out, judge_c08=True, judge_c09=True, prefix="C08"):
                     if a.strip() != b_.strip():
                         out["disagreements"].append({"what": f"operation {oi} of {short(h)}: implementation [{a}] model [{b_}]",
                                                      "history": h[:oi + 1], "names": nm})
+                        # C09 is about exactly this observable: the construction model's graph after a call IS the
+                        # graph the property describes (props/C09.v: prim_spec, path_spec); a different graph in the
+                        # implementation is a failing history, not merely a broken tie
+                        ga, gb = a.split(" | ")[1].strip(), b_.split(" | ")[1].strip()
+                        if judge_c09 and ga != gb:
+                            out["failures"].append({"key": f"C09:graph:{h[oi][0]}", "history": h[:oi + 1], "names": nm,
+                                                    "what": f"after {short(h[:oi + 1])}: the graph is [{ga}], the calls describe [{gb}]"})
                         break
         if len(h) >= 2 and any(h[i][0] == "read" and any(o[0] != "read" for o in h[i + 1:]) for i in range(len(h))):
             distinct.add(repr(h))
